@@ -233,9 +233,14 @@ class Field:
         self._Set_dofsValues(np.asarray(dofsValues, dtype=float).ravel())
 
         self.__is_currently_evaluated = True
-        values_e_pg = function(self)
-        assert isinstance(values_e_pg, FeArray), "must be a FeArray"
-        self.__is_currently_evaluated = False
+        try:
+            values_e_pg = function(self)
+            assert isinstance(values_e_pg, FeArray), "must be a FeArray"
+        finally:
+            # a function that raises must not leave the field in evaluation mode: the forms
+            # integrated afterwards would differentiate these dof values
+            self.__is_currently_evaluated = False
+
 
         if returnMeanValues:
             return values_e_pg.mean(1)
